@@ -243,6 +243,10 @@ func (r *Reader) parseWorksheets() error {
 	return nil
 }
 
+// maxSheetCells is the largest dense grid (rows x columns) parseWorksheet will
+// allocate for one worksheet.
+const maxSheetCells = 5000000
+
 // parseWorksheet parses a single worksheet.
 func (r *Reader) parseWorksheet(data []byte, name string, index int) (*Sheet, error) {
 	var ws worksheetXML
@@ -289,6 +293,15 @@ func (r *Reader) parseWorksheet(data []byte, name string, index int) (*Sheet, er
 				maxCol = col
 			}
 		}
+	}
+
+	// The sheet is materialised as a dense rows x columns grid, and both
+	// dimensions come from attributes in the file (a single cell reference such as
+	// XFD1048576, or a damaged one, decides them). Refuse grids that cannot
+	// reasonably be held in memory instead of trying to allocate them.
+	if maxRow < 0 || maxCol < 0 || maxRow > maxSheetCells || maxCol+1 > maxSheetCells ||
+		int64(maxRow)*int64(maxCol+1) > maxSheetCells {
+		return nil, fmt.Errorf("worksheet %q is too large to load: %d rows x %d columns", name, maxRow, maxCol+1)
 	}
 
 	sheet.MaxRow = maxRow - 1 // Convert to 0-indexed
